@@ -1127,7 +1127,7 @@ INJECT = [inj_fast_random, inj_erdos_renyi, inj_hsbm, inj_fast_random, inj_erdos
 # ---------------------------------------------------------------------------------
 def plan(tier):
     if tier == "quick":
-        return {"decode": len(DECODE_CASES), "grid": 1300 * len(GRID), "inject": 1000 * len(INJECT)}
+        return {"decode": len(DECODE_CASES), "grid": 1000 * len(GRID), "inject": 800 * len(INJECT)}
     return {"decode": len(DECODE_CASES), "grid": 100000 * len(GRID), "inject": 100000 * len(INJECT)}
 
 
